@@ -136,7 +136,7 @@ claim("C14",
       "(parent position, child kind), for every inherited position / flag / outer context: no parentheses ==> the PRQL grammar re-attaches the child "
       "to the same parent (FP1.*; the grammar's Pratt table is extracted from parser/expr.rs and is itself checked against the documented table, "
       "PP1.*); identifiers are written bare only if they are not lexer keywords, in both ident writers (WI1/2, DI1/2, FP2.*, FP3.*); the string "
-      "delimiter run is odd and longer than any quote run (QS2). the text printed inside a string literal (escape_all_except_quotes, loop proof) is one piece per character, each of which the lexer decodes to that character (fmt_strings EQ1). NOT proved: line breaking, idempotence, whole-AST round trip.",
+      "delimiter run is odd and longer than any quote run (QS2). the text printed inside a string literal (escape_all_except_quotes, loop proof) is one piece per character, each of which the lexer decodes to that character (fmt_strings EQ1); quote_string (whole function) prints `q^n s q^n` with n odd only when s neither starts nor ends with q and has no run of n q's, and otherwise escapes the double quotes - so the lexer reads the literal back as s (QS3). NOT proved: line breaking, idempotence, whole-AST round trip.",
       "pr::Expr::write's use of needs_parenthesis and the non-binary arms' option handling are read off the text, not verified; chumsky's pratt() "
       "semantics assumed; regex / HashSet / Formatter / String operations are shims by contract.")
 
